@@ -301,6 +301,7 @@ def scn_srv(params):
             return out
         wit = {"seed": seed, "password": pw.hex(), "params": params}
         history = {}          # slot -> challenges handed out so far
+        nonlocal_n = [0]
         n = 0
         for rnd in range(params["rounds"]):
             batch = []
@@ -315,6 +316,19 @@ def scn_srv(params):
                 old = history.setdefault(mc.userid, [])
                 if old:
                     out["stats"]["srv_slot_reuses"] += 1
+
+                def bystanders():
+                    # other hosts say hello in between (another protocol version: VNAK; the right one: a slot of their own, or
+                    # VFUL when the pool is used up): the response to one's own challenge depends on nothing else
+                    for _b in range(rng.choice([0, 0, 1, 1, 2])):
+                        nonlocal_n[0] += 1
+                        by = mclient.ModelClient("10.53.7.%d" % (nonlocal_n[0] % 250 + 1), (scen.SERVER_IP, 53), sim.domain, pw, random.Random(rng.getrandbits(32)),
+                                                 qtype=rng.choice(list(proto.QTYPES.values())))
+                        k.add_actor(by.ip, by)
+                        pl = by.version(version=rng.choice([proto.PROTOCOL_VERSION, 0x00000501, 0x00000503, 0, 0xFFFFFFFF]))
+                        kind_ = (pl or b"none")[:4].decode("latin1")
+                        out["stats"]["srv_bystander_" + kind_] = out["stats"].get("srv_bystander_" + kind_, 0) + 1
+                bystanders()
                 # wrong responses first: an earlier challenge of this slot, neighbours of the challenge, one flipped bit
                 wrong = []
                 if old:
@@ -352,6 +366,7 @@ def scn_srv(params):
                         if len(mc.raw_in) > n0:
                             out["violations"].append(("C19:server:wrong-raw-response-accepted", "the server replied to a raw login carrying the response for challenge+0 (slot %d)" % mc.userid, wit))
                     for rep in range(rng.randint(1, 4)):
+                        bystanders()
                         n0 = len(mc.raw_in)
                         mc.raw_login()
                         k.run(k.now + rng.choice([5000, 20000, 1000000]))
